@@ -8,7 +8,9 @@ pub fn register(v: &mut Vec<(&'static str, crate::Harness)>) {
 
 /// XML 1.0 `Char` production.
 pub fn is_xml_char(c: char) -> bool {
-    matches!(c, '\u{9}' | '\u{A}' | '\u{D}' | '\u{20}'..='\u{D7FF}' | '\u{E000}'..='\u{FFFD}' | '\u{10000}'..='\u{10FFFF}')
+    // branch-free on purpose: one symbolic boolean, no path split per range
+    let u = c as u32;
+    (u == 9) | (u == 10) | (u == 13) | ((u >= 0x20) & (u <= 0xD7FF)) | ((u >= 0xE000) & (u <= 0xFFFD)) | (u >= 0x10000)
 }
 
 pub fn xml_string(name: &'static str, max: usize) -> String {
